@@ -61,7 +61,16 @@ func TestDevBatch(t *testing.T) {
 		t.Skip()
 	}
 	gobatch.EvalTimeout = 10 * time.Minute
-	AvoidNonInt = os.Getenv("C08_NONINT") == ""
+	av := os.Getenv("C08_AVOID") // digits of the findings to avoid, e.g. 134567
+	Avoid.NonInt = strings.Contains(av, "1")
+	Avoid.CopyResult = strings.Contains(av, "2")
+	Avoid.NilArrayCap = strings.Contains(av, "3")
+	Avoid.RangePtrArray = strings.Contains(av, "4")
+	Avoid.IdentityOp = strings.Contains(av, "5")
+	Avoid.NilIfaceKey = strings.Contains(av, "6")
+	Avoid.MakeLenCap = strings.Contains(av, "7")
+	Avoid.NilDerefValue = strings.Contains(av, "8")
+	Avoid.EllipsisHint = strings.Contains(av, "9")
 	n := 0
 	fmt.Sscan(os.Getenv("C08_BATCH"), &n)
 	type cs struct {
